@@ -9,6 +9,18 @@ SPECS = [
     dict(module="canopen.objectdictionary", qualname="ODVariable.encode_bits", name="src_encode_bits",
          params=[("original_value", "Z"), ("bits", "list Z"), ("bit_value", "Z")], ret="Z",
          ignore_try=["bits = self.bit_definitions[bits]"]),
+    # Variable.read / Variable.write: only the dispatch on fmt ("raw" = 0, "phys" = 1, "desc" = 2, other = 3);
+    # the result is the property the method goes through (1 = raw, 2 = phys, 3 = desc, 0 = none).
+    # Any other statement in these methods (e.g. a conversion done in place) does not translate.
+    dict(module="canopen.variable", qualname="Variable.read", name="src_read_route",
+         params=[("fmt", "Z")], ret="Z", fallthrough="0",
+         calls={"fmt == 'raw'": "(Z.eqb fmt 0)", "fmt == 'phys'": "(Z.eqb fmt 1)", "fmt == 'desc'": "(Z.eqb fmt 2)"},
+         returns={"self.raw": "1", "self.phys": "2", "self.desc": "3"}),
+    dict(module="canopen.variable", qualname="Variable.write", name="src_write_route",
+         params=[("fmt", "Z"), ("route", "Z")], ret="Z", fallthrough="route",
+         calls={"fmt == 'raw'": "(Z.eqb fmt 0)", "fmt == 'phys'": "(Z.eqb fmt 1)", "fmt == 'desc'": "(Z.eqb fmt 2)"},
+         stmts={"self.raw = value": "let route := 1", "self.phys = value": "let route := 2",
+                "self.desc = value": "let route := 3"}),
 ]
 
 
